@@ -73,8 +73,29 @@ func findSigRoles(p *Prog) *sigRoles {
 		}
 	}
 	for _, fn := range p.FuncsCalling(modPath + "/xmlenc.Decrypt") {
-		if p.InLibrary(fn) && fn.Pkg != nil && fn.Pkg.Pkg.Path() == modPath && returnsElements(fn) {
-			sr.Decrypt[fn] = true
+		if !p.InLibrary(fn) || fn.Pkg == nil || fn.Pkg.Pkg.Path() != modPath {
+			continue
+		}
+		// the decrypt step is the function that hands back the plaintext *element*; the call of xmlenc.Decrypt may sit
+		// in an unexported helper of it that returns the plaintext bytes
+		level := []*ssa.Function{fn}
+		for d := 0; d < 3 && len(level) > 0; d++ {
+			var next []*ssa.Function
+			for _, f := range level {
+				if returnsElements(f) {
+					sr.Decrypt[f] = true
+					continue
+				}
+				if f.Object() != nil && f.Object().Exported() {
+					continue
+				}
+				for _, cs := range p.StaticCallersOf(f) {
+					if p.InLibrary(cs.Caller) && cs.Caller.Pkg == f.Pkg {
+						next = append(next, cs.Caller)
+					}
+				}
+			}
+			level = next
 		}
 	}
 	return sr
@@ -125,6 +146,17 @@ func ruleC01(r *Report) {
 	r.Rule("C01.xrv", "every parse of peer-provided bytes on the consuming paths is dominated by the nil edge of the round-trip validator on the same bytes (own serialisations exempt by provenance)", 4)
 	r.Rule("C01.samepath", "decrypted assertions reach the same assertion parser with the caller's own request IDs, time and signature token", 1)
 
+	// "re-encryption ... by a party that lacks the IdP key": what the decrypt step hands to the parser is a function of
+	// the ciphertext in this message - it consults nothing the library remembers from earlier messages (anyone can
+	// encrypt to the SP's public certificate, so a remembered plaintext is attacker-chosen)
+	r.Rule("C01.decrypt-stateless", "the SP's decrypt step (every root-package function that calls xmlenc.Decrypt, with its helpers) reads no package-level variable that library code writes at run time", 1)
+	for _, fn := range sortedFnList(p, p.FuncsCalling(modPath+"/xmlenc.Decrypt")) {
+		if p.InLibrary(fn) && fn.Pkg != nil && fn.Pkg.Pkg.Path() == modPath {
+			r.Fn(p.FnName(fn))
+			checkNoProcessStateFor(r, p, fn, "C01.decrypt-stateless", "the plaintext handed on is that of this message's ciphertext",
+				"the decrypt step consults", "the assertion that is parsed is then not (only) the plaintext of the EncryptedData the verified signature covers: a plaintext remembered from an earlier, refused message is returned under a genuine signature")
+		}
+	}
 	checkSigToken(r, m, sr)
 	checkSameEl(r, m, sr)
 	safely(r, func() { checkUnmarshalBytes(r, p, sr, "C01.sameel") })
@@ -1030,7 +1062,7 @@ func helperRegion(p *Prog, fn *ssa.Function, depth int) []*ssa.Function {
 					if !ok {
 						continue
 					}
-					sc := ci.Common().StaticCallee()
+					sc, _ := calleeOf(ci.Common())
 					if sc == nil || seen[sc] || !p.InModule(sc) || len(sc.Blocks) == 0 || sc.Pkg != fn.Pkg {
 						continue
 					}
@@ -1448,7 +1480,11 @@ func elementSourceOfComponent(p *Prog, fc *FuncCtx, v ssa.Value, sr *sigRoles, d
 // to the variable (or to memory reached through it), a map update or delete on it, or a call of a mutating method of a
 // synchronised container (sync.Map, sync.Pool, atomic.Value) on it. Application-set configuration variables (TimeNow,
 // Clock, MaxIssueDelay, RandReader) are written by no library function and are not in the set.
-func moduleWrittenGlobals(p *Prog) map[*ssa.Global]string {
+func moduleWrittenGlobals(p *Prog) map[*ssa.Global]string { return globalsWrittenBy(p, nil) }
+
+// globalsWrittenBy: the package-level variables of the module written by the given functions (by all library functions
+// when only is nil), with the position of a write.
+func globalsWrittenBy(p *Prog, only []*ssa.Function) map[*ssa.Global]string {
 	out := map[*ssa.Global]string{}
 	mutating := map[string]bool{"Store": true, "LoadOrStore": true, "LoadAndDelete": true, "Delete": true, "Swap": true, "CompareAndSwap": true, "CompareAndDelete": true, "Put": true, "Clear": true}
 	globalOf := func(v ssa.Value) *ssa.Global {
@@ -1468,7 +1504,11 @@ func moduleWrittenGlobals(p *Prog) map[*ssa.Global]string {
 		}
 		return nil
 	}
-	for _, fn := range p.modFns {
+	fns := p.modFns
+	if only != nil {
+		fns = only
+	}
+	for _, fn := range fns {
 		if !p.InLibrary(fn) || fn.Name() == "init" || strings.HasPrefix(fn.Name(), "init#") {
 			continue
 		}
@@ -1488,6 +1528,18 @@ func moduleWrittenGlobals(p *Prog) map[*ssa.Global]string {
 					if bi, ok := cc.Value.(*ssa.Builtin); ok && bi.Name() == "delete" && len(cc.Args) == 2 {
 						if g := globalOf(cc.Args[0]); g != nil && g.Pkg != nil && strings.HasPrefix(g.Pkg.Pkg.Path(), modPath) {
 							out[g] = p.InstrPos(in)
+						}
+					}
+					// a module function (typically a method) handed the variable - a pointer to a struct with a map or
+					// other state in it - that writes through that parameter: cache.put(k, v) on `var cache = &table{...}`
+					if sc := cc.StaticCallee(); sc != nil && p.InModule(sc) && len(sc.Blocks) > 0 {
+						for i, arg := range cc.Args {
+							if i >= len(sc.Params) {
+								break
+							}
+							if g := globalOf(arg); g != nil && g.Pkg != nil && strings.HasPrefix(g.Pkg.Pkg.Path(), modPath) && mutatesThrough(p, sc, sc.Params[i], 0) {
+								out[g] = p.InstrPos(in)
+							}
 						}
 					}
 					if sc := cc.StaticCallee(); sc != nil && sc.Signature.Recv() != nil && mutating[sc.Name()] && len(cc.Args) > 0 {
@@ -1742,4 +1794,66 @@ func alwaysNilResult(v ssa.Value) bool {
 		n++
 	}
 	return n > 0
+}
+
+// sortedFnList: fns sorted by name (deterministic reports).
+func sortedFnList(p *Prog, fns []*ssa.Function) []*ssa.Function {
+	out := append([]*ssa.Function{}, fns...)
+	sort.Slice(out, func(i, j int) bool { return p.FnName(out[i]) < p.FnName(out[j]) })
+	return out
+}
+
+// mutatesThrough: fn writes memory reached from its parameter prm: a store, a map update or a delete whose target is
+// rooted at prm (through field selections and loads), or a call that hands such memory to a module function that does.
+func mutatesThrough(p *Prog, fn *ssa.Function, prm *ssa.Parameter, depth int) bool {
+	if depth > 2 {
+		return false
+	}
+	rooted := func(v ssa.Value) bool {
+		for i := 0; i < 8; i++ {
+			if v == ssa.Value(prm) {
+				return true
+			}
+			switch x := v.(type) {
+			case *ssa.FieldAddr:
+				v = x.X
+			case *ssa.IndexAddr:
+				v = x.X
+			case *ssa.UnOp:
+				v = x.X
+			case *ssa.Field:
+				v = x.X
+			default:
+				return false
+			}
+		}
+		return false
+	}
+	for _, b := range fn.Blocks {
+		for _, in := range b.Instrs {
+			switch x := in.(type) {
+			case *ssa.Store:
+				if _, isAlloc := x.Addr.(*ssa.Alloc); !isAlloc && rooted(x.Addr) {
+					return true
+				}
+			case *ssa.MapUpdate:
+				if rooted(x.Map) {
+					return true
+				}
+			case ssa.CallInstruction:
+				cc := x.Common()
+				if bi, ok := cc.Value.(*ssa.Builtin); ok && bi.Name() == "delete" && len(cc.Args) == 2 && rooted(cc.Args[0]) {
+					return true
+				}
+				if sc := cc.StaticCallee(); sc != nil && p.InModule(sc) && len(sc.Blocks) > 0 {
+					for i, a := range cc.Args {
+						if i < len(sc.Params) && rooted(a) && isPointerLike(a.Type()) && mutatesThrough(p, sc, sc.Params[i], depth+1) {
+							return true
+						}
+					}
+				}
+			}
+		}
+	}
+	return false
 }
